@@ -28,6 +28,7 @@ import (
 	"math/big"
 	"net/url"
 	"os"
+	"runtime/debug"
 	"strings"
 	"time"
 
@@ -38,6 +39,7 @@ import (
 	"k8s.io/apiserver/pkg/admission"
 	"k8s.io/client-go/kubernetes"
 	"k8s.io/client-go/rest"
+	"k8s.io/client-go/tools/cache"
 	certutil "k8s.io/client-go/util/cert"
 	apivalidation "k8s.io/kubernetes/pkg/apis/core/validation"
 
@@ -47,9 +49,13 @@ import (
 	gatewayfake "github.com/kubewharf/kubegateway/pkg/client/kubernetes/fake"
 	"github.com/kubewharf/kubegateway/pkg/clusters"
 	"github.com/kubewharf/kubegateway/pkg/clusters/features"
+	"github.com/kubewharf/kubegateway/pkg/flowcontrols"
+	"github.com/kubewharf/kubegateway/pkg/flowcontrols/flowcontrol"
+	"github.com/kubewharf/kubegateway/pkg/flowcontrols/remote"
 	"github.com/kubewharf/kubegateway/pkg/gateway/controllers"
 	"github.com/kubewharf/kubegateway/pkg/gateway/controlplane/admission/initializer"
 	proxyoptions "github.com/kubewharf/kubegateway/pkg/gateway/proxy/options"
+	"github.com/kubewharf/kubegateway/pkg/ratelimiter/clientsets"
 	upstreamclusteradmission "github.com/kubewharf/kubegateway/plugin/admission/upstreamcluster"
 )
 
@@ -106,6 +112,7 @@ type c16Case struct {
 	Schemas  []c16Schema `json:"schemas"`
 	Logging  string      `json:"logging"`
 	Policies []c16Policy `json:"policies"`
+	V2       *c16Case    `json:"v2"` // optional: the next version of the same object
 }
 
 // ---------------------------------------------------------------- observations
@@ -120,6 +127,7 @@ type c16EpFacts struct {
 
 type c16Facts struct {
 	NameOK   bool         `json:"name_ok"` // ValidateObjectMeta of the object has no error
+	NameLow  bool         `json:"name_lower"` // strings.ToLower(name) == name
 	Gate     string       `json:"gate"`    // absent | ok | bad   (featuregate.Set on a copy of the defaults)
 	Eps      []c16EpFacts `json:"eps"`
 	CCPairOK bool         `json:"cc_pair_ok"` // tls.X509KeyPair(cert, key) err == nil
@@ -272,6 +280,7 @@ func buildObject(c *c16Case) *proxyv1alpha1.UpstreamCluster {
 func oracle(o *proxyv1alpha1.UpstreamCluster) c16Facts {
 	f := c16Facts{Gate: "absent", Eps: []c16EpFacts{}}
 	f.NameOK = len(apivalidation.ValidateObjectMeta(&o.ObjectMeta, false, apimachineryvalidation.NameIsDNSSubdomain, field.NewPath("metadata"))) == 0
+	f.NameLow = strings.ToLower(o.Name) == o.Name
 	if g := o.Annotations[features.FeatureGateAnnotationKey]; len(g) > 0 {
 		f.Gate = "ok"
 		if err := features.DefaultMutableFeatureGate.DeepCopy().Set(g); err != nil {
@@ -334,6 +343,9 @@ func outcome(f func() error) (res string) {
 	defer func() {
 		if r := recover(); r != nil {
 			res = "panic"
+			if os.Getenv("VERIF_C16_TRACE") != "" {
+				fmt.Fprintf(os.Stderr, "PANIC in step %s: %v\n%s\n", stepName, r, debug.Stack())
+			}
 		}
 	}()
 	if err := f(); err != nil {
@@ -354,10 +366,8 @@ func projErrs(l field.ErrorList) []c16Err {
 	return out
 }
 
-func runC16(raw json.RawMessage) interface{} {
-	var c c16Case
-	must(json.Unmarshal(raw, &c))
-	obj := buildObject(&c)
+// the five single-object steps of the original check
+func single(obj *proxyv1alpha1.UpstreamCluster) c16Obs {
 	obs := c16Obs{Facts: oracle(obj.DeepCopy()), Errs: []c16Err{}}
 
 	stepName = "validate"
@@ -399,28 +409,11 @@ func runC16(raw json.RawMessage) interface{} {
 	stepName = "ctrl"
 	// 4. gateway: the controller's sync handler on a fresh controller whose lister knows the object
 	obs.Ctrl = outcome(func() error {
-		gw := gatewayfake.NewSimpleClientset()
-		inf := gatewayinformers.NewSharedInformerFactory(gw, 0).Proxy().V1alpha1().UpstreamClusters()
-		ctrl := controllers.NewUpstreamClusterController(inf, proxyoptions.NewRateLimiterOptions())
+		ctrl, idx := newController()
 		o := obj.DeepCopy()
-		must(inf.Informer().GetIndexer().Add(o))
-		defer func() {
-			if info, ok := ctrl.Get(strings.ToLower(o.Name)); ok {
-				clusters.VerifC16StopFlowControls(info)
-			}
-			ctrl.DeleteAll()
-		}()
-		requeue, err := ctrl.VerifC16Sync(o)
-		if err != nil {
-			return err
-		}
-		if requeue {
-			return fmt.Errorf("requeued")
-		}
-		if _, ok := ctrl.Get(strings.ToLower(o.Name)); !ok {
-			return fmt.Errorf("cluster not registered")
-		}
-		return nil
+		must(idx.Add(o))
+		defer stopController(ctrl, o.Name)
+		return ctrlSync(ctrl, o)
 	})
 
 	stepName = "lim"
@@ -435,6 +428,201 @@ func runC16(raw json.RawMessage) interface{} {
 		return lim.v.Handler(o)
 	})
 	return obs
+}
+
+func newController() (*controllers.UpstreamClusterController, cache.Indexer) {
+	gw := gatewayfake.NewSimpleClientset()
+	inf := gatewayinformers.NewSharedInformerFactory(gw, 0).Proxy().V1alpha1().UpstreamClusters()
+	ctrl := controllers.NewUpstreamClusterController(inf, proxyoptions.NewRateLimiterOptions())
+	return ctrl, inf.Informer().GetIndexer()
+}
+
+func stopController(ctrl *controllers.UpstreamClusterController, name string) {
+	if info, ok := ctrl.Get(strings.ToLower(name)); ok {
+		clusters.VerifC16StopFlowControls(info)
+	}
+	ctrl.DeleteAll()
+}
+
+func ctrlSync(ctrl *controllers.UpstreamClusterController, o *proxyv1alpha1.UpstreamCluster) error {
+	requeue, err := ctrl.VerifC16Sync(o)
+	if err != nil {
+		return err
+	}
+	if requeue {
+		return fmt.Errorf("requeued")
+	}
+	if _, ok := ctrl.Get(strings.ToLower(o.Name)); !ok {
+		return fmt.Errorf("cluster not registered")
+	}
+	return nil
+}
+
+// ---------------------------------------------------------------- updates v1 -> v2
+
+type c16Upd struct {
+	Info string `json:"info"` // ClusterInfo.Sync(v2) on the info created from v1: ok | err | panic | nocreate
+	Ctrl string `json:"ctrl"` // second controller sync (v2) after the first (v1): ok | err | panic
+	Lim  string `json:"lim"`  // second UpstreamConditionHandler (v2) after the first (v1): ok | err | panic
+}
+
+func update(v1, v2 *proxyv1alpha1.UpstreamCluster) c16Upd {
+	u := c16Upd{Info: "nocreate"}
+	stepName = "upd_info"
+	var info *clusters.ClusterInfo
+	_ = outcome(func() error {
+		var err error
+		info, err = clusters.CreateClusterInfo(v1.DeepCopy(), nil, "", nil)
+		return err
+	})
+	if info != nil {
+		u.Info = outcome(func() error { return info.Sync(v2.DeepCopy()) })
+		clusters.VerifC16StopFlowControls(info)
+		info.Stop()
+	}
+
+	stepName = "upd_ctrl"
+	ctrl, idx := newController()
+	a, b := v1.DeepCopy(), v2.DeepCopy()
+	must(idx.Add(a))
+	_ = outcome(func() error { return ctrlSync(ctrl, a) })
+	must(idx.Update(b))
+	u.Ctrl = outcome(func() error { return ctrlSync(ctrl, b) })
+	stopController(ctrl, b.Name)
+
+	stepName = "upd_lim"
+	lim.setCluster(a)
+	_ = outcome(func() error { return lim.v.Handler(a) })
+	lim.setCluster(b) // Add on an existing key replaces the object
+	u.Lim = outcome(func() error { return lim.v.Handler(b) })
+	lim.delCluster(b)
+	_ = outcome(func() error { return lim.v.Handler(b) })
+	return u
+}
+
+// ---------------------------------------------------------------- remote rate limiter path
+
+// One reconcile round of the gateway's remote limiter for the flow-control spec of v, played step by
+// step against the real limiter server object: upstreamLimiter.Sync, the limiter's handler, the
+// global-count pass, the allocate round trip (buildLimitConditions -> UpdateRateLimitConditionStatus ->
+// updateFlowControls) and Load of every schema.
+type c16Round struct {
+	Sync  string `json:"sync"`  // ok | panic
+	Count string `json:"count"` // ok | panic | skip
+	Alloc string `json:"alloc"` // ok | err | panic | skip
+	Load  string `json:"load"`  // ok | panic | skip
+}
+
+type c16Gateway struct {
+	ul     flowcontrols.UpstreamLimiter
+	rec    remote.Reconcile
+	cancel context.CancelFunc
+	dead   bool
+}
+
+func newGateway(cluster, id string) *c16Gateway {
+	ctx, cancel := context.WithCancel(context.Background())
+	cs := clientsets.VerifC16ClientSets(1, id)
+	clientsets.VerifSetLeader(cs, 0, "127.0.0.1:1", true)
+	ul := flowcontrols.NewUpstreamLimiter(ctx, cluster, flowcontrol.RemoteFlowControls, cs)
+	return &c16Gateway{ul: ul, rec: flowcontrols.VerifReconcile(ul), cancel: cancel}
+}
+
+func (g *c16Gateway) stop() {
+	for _, fc := range g.ul.AllFlowControls() {
+		f := fc
+		_ = outcome(func() error { f.Stop(); return nil })
+	}
+	g.cancel()
+}
+
+func (g *c16Gateway) round(o *proxyv1alpha1.UpstreamCluster) c16Round {
+	r := c16Round{Sync: "skip", Count: "skip", Alloc: "skip", Load: "skip"}
+	if !g.dead {
+		stepName = "rem_sync"
+		r.Sync = outcome(func() error { g.ul.Sync(o.Spec.FlowControl); return nil })
+		g.dead = r.Sync == "panic"
+	}
+	if !g.dead {
+		stepName = "rem_count"
+		r.Count = outcome(func() error { remote.VerifUpdateGlobalCount(g.rec); return nil })
+		g.dead = r.Count == "panic"
+	}
+	if !g.dead {
+		stepName = "rem_alloc"
+		r.Alloc = outcome(func() error {
+			cond := remote.VerifC16BuildConditions(g.rec)
+			ret, err := lim.rl.UpdateRateLimitConditionStatus(o.Name, cond)
+			if err != nil {
+				return err
+			}
+			remote.VerifUpdateFlowControls(g.rec, ret)
+			return nil
+		})
+		g.dead = r.Alloc == "panic"
+	}
+	if !g.dead {
+		stepName = "rem_load"
+		r.Load = outcome(func() error {
+			for _, s := range o.Spec.FlowControl.Schemas {
+				g.ul.GetOrDefault(s.Name)
+			}
+			return nil
+		})
+		g.dead = r.Load == "panic"
+	}
+	return r
+}
+
+// rounds: gateway A applies every version in turn (the limiter's handler sees each version first);
+// for a pair, a second gateway replica B that only ever saw the last version then does its first round.
+func remoteRounds(objs []*proxyv1alpha1.UpstreamCluster) []c16Round {
+	cluster := strings.ToLower(objs[0].Name)
+	a := newGateway(cluster, "gw-a")
+	defer a.stop()
+	out := []c16Round{}
+	var last *proxyv1alpha1.UpstreamCluster
+	for _, v := range objs {
+		o := v.DeepCopy()
+		last = o
+		lim.setCluster(o)
+		_ = outcome(func() error { return lim.v.Handler(o) })
+		out = append(out, a.round(o))
+	}
+	if len(objs) > 1 {
+		b := newGateway(cluster, "gw-b")
+		defer b.stop()
+		out = append(out, b.round(last))
+	}
+	lim.delCluster(last)
+	_ = outcome(func() error { return lim.v.Handler(last) })
+	return out
+}
+
+type c16Full struct {
+	c16Obs
+	V2  *c16Obs    `json:"v2,omitempty"`
+	Upd *c16Upd    `json:"upd,omitempty"`
+	Rem []c16Round `json:"rem"`
+}
+
+func runC16(raw json.RawMessage) interface{} {
+	var c c16Case
+	must(json.Unmarshal(raw, &c))
+	obj := buildObject(&c)
+	full := c16Full{c16Obs: single(obj)}
+	objs := []*proxyv1alpha1.UpstreamCluster{obj}
+	if c.V2 != nil {
+		c.V2.Name = c.Name // an update keeps the name
+		obj2 := buildObject(c.V2)
+		o2 := single(obj2)
+		full.V2 = &o2
+		u := update(obj, obj2)
+		full.Upd = &u
+		objs = append(objs, obj2)
+	}
+	full.Rem = remoteRounds(objs)
+	return full
 }
 
 func main() {
